@@ -30,7 +30,8 @@ EXPLANATION = (
     "Folder.add_file (which skips the duplicate-name test) receives either the object the look-up by name returned or a "
     "File constructed on the look-up's empty edge (listed exception: copy_file, callable only from restore_backup); R15.7 a look-up result that may be a deleted item "
     "(include_deleted=True) is filed in a live dictionary only after restore()/`deleted = False`, a re-binding to a new object, or "
-    "on the not-deleted / not-found edge; describe_state of FileSystem/Folder/File stores nothing on the object. NOT decided: "
+    "on the not-deleted / not-found edge; describe_state of FileSystem/Folder/File stores nothing on the object; R15.8 = C05's R5.6 "
+    "(an insertion into a routed collection registers the route on the same path, unconditionally) applied here. NOT decided: "
     "bounded-exhaustive sequence conformance against a reference model."
 )
 TECHNIQUE = "static: abstract interpreter over (in live, in deleted, flag) on every path of the partition-changing methods, CFG must-pass on create routes, option def-use"
@@ -626,3 +627,9 @@ def check(ctx: Ctx) -> None:
     r15_5(ctx)
     r15_6(ctx)
     r15_7(ctx)
+    # "deleted items are unavailable to further actions": a name that is re-used must route to the new object - the insertion /
+    # registration pairing of C05 (R5.6) applies here
+    from . import c05
+    from ..reqtree import RequestTree
+    with ctx.borrowed({"R5.6": "R15.8"}):
+        c05.r5_6(ctx, RequestTree(ctx.ix))
